@@ -218,6 +218,9 @@ class Path:
 INT_TYPES = ("u8", "u16", "u32", "u64", "usize", "i8", "i16", "i32", "i64", "isize")
 
 
+_MISSING = object()
+
+
 class Evaluator:
     """evaluates one action; `args`: name -> Val"""
 
@@ -566,7 +569,10 @@ class Evaluator:
         if name == "error":
             args = e.get("args") or []
             msg = self.ev1(args[2], p) if len(args) >= 3 else None
-            p.effects.append(Effect("error", line, msg=msg, start=self.describe(args[0]) if args else None, end=self.describe(args[1]) if len(args) > 1 else None))
+            sv = self.ev1(args[0], p) if args else None
+            ev_ = self.ev1(args[1], p) if len(args) > 1 else None
+            p.effects.append(Effect("error", line, msg=msg, start=self.describe(args[0]) if args else None, end=self.describe(args[1]) if len(args) > 1 else None,
+                                    startv=sv, endv=ev_))
             p.ret = Res(None, True, msg)
             return [p]
         if name in ("vec", "alloc::vec"):
@@ -679,12 +685,40 @@ class Evaluator:
                     self.bind_payload(pat, Top("payload"), q)
                 elif pat["k"] == "ident" and tag is None:
                     q.env[pat["name"]] = scrut
+                elif pat["k"] == "struct":
+                    # `Variant{field: (a, b, c), other}`: every name bound by the pattern shadows an outer one
+                    self.bind(pat, Top("struct-pattern"), q)
             if not take:
                 continue
             q.conds.append((f"{desc} matches {self.pat_str(pat)}", True, line, None))
             body = arm["body"]
-            outs.extend(self.block(body, [q]) if body.get("k") == "block" else self.expr(body, q))
+            # names bound by the pattern are visible in the arm only: restore what they shadowed afterwards
+            names = self.pattern_names(pat)
+            saved = {n: p.env.get(n, _MISSING) for n in names}
+            res = self.block(body, [q]) if body.get("k") == "block" else self.expr(body, q)
+            for r_ in res:
+                for n, v in saved.items():
+                    if v is _MISSING:
+                        r_.env.pop(n, None)
+                    else:
+                        r_.env[n] = v
+            outs.extend(res)
         return outs
+
+    def pattern_names(self, pat):
+        out = []
+
+        def walk(n):
+            if isinstance(n, dict):
+                if n.get("k") == "ident" and n.get("name") and not n["name"][0].isupper():
+                    out.append(n["name"])
+                for v in n.values():
+                    walk(v)
+            elif isinstance(n, list):
+                for v in n:
+                    walk(v)
+        walk(pat)
+        return out
 
     def pat_tag(self, pat):
         if pat["k"] == "tuple_struct":
